@@ -1195,7 +1195,7 @@ Definition m_range (a0 : val) : res :=
    exponent and a result below 2^53 (exact) *)
 Definition sc_pow (a b : val) : res :=
   match a, b with
-  | VI x, VI y => if (0 <=? y) && (Z.abs (x ^ y) <? 2 ^ 53) then Ok (VI (x ^ y)) else Unmod
+  | VI x, VI y => if (0 <=? y) && (y <? 64) && (Z.abs (x ^ y) <? 2 ^ 53) then Ok (VI (x ^ y)) else Unmod
   | _, _ => Unmod
   end.
 Definition m_power (a b : val) : res := vec2 (fuel2 a b) (leaf2n sc_pow) a b.
@@ -1209,8 +1209,8 @@ Fixpoint index_path (fuel : nat) (a : val) (path : list Z) : res :=
       | [] => Ok a
       | i :: rest =>
           match a with
-          | VL l => if is_rect a then bind (py_index l i) (fun x => index_path f' x rest)
-                    else (match rest with [] => py_index l i | _ => Err end)
+          | VL l => bind (py_index l i) (fun x => index_path f' x rest)      (* one index per level (fix: commit) *)
+          | VS _ | VY _ | VC _ => Unmod      (* str subclasses index into their text *)
           | _ => Err
           end
       end
@@ -1259,6 +1259,7 @@ Fixpoint amend_str (v : list Z) (idx : list Z) (cells : list (list Z)) : result 
       if i <? 0 then Unmod else
       let n := zlen cells in
       if i + zlen v <=? n then amend_str v r (splice (Z.to_nat i) (map (fun c => [c]) v) cells)
+      else if zlen v =? 1 then amend_str v r cells              (* one element broadcasts into the empty slice: no error *)
       else if n <? i then amend_str v r cells                   (* RangeError(i) is constructed, not raised *)
       else if i =? n then amend_str v r (cells ++ [v])
       else amend_str v r (replace_at (Z.to_nat i) v cells)
@@ -1294,9 +1295,10 @@ Definition m_amend (a b : val) : res :=
                   | _ =>
                       match rshape a with
                       | Some [_] =>
-                          (match cast_into (has_real a) v with
-                           | Some v' => (match put_all v' zs la with Some r => Ok (VL r) | None => Err end)
-                           | None => (match la with [] => (match zs with [] => Ok a | _ => Err end) | _ => Err end) end)
+                          (* an integer goes into the array's dtype, a real into a real array; anything else makes the
+                             array an object array first (fix: commit) and is stored as it is *)
+                          let v' := match v with VI z => if has_real a then VR (rofZ z) else v | _ => v end in
+                          (match put_all v' zs la with Some r => Ok (VL r) | None => Err end)
                       | Some _ => Unmod          (* numpy.put addresses the flattened matrix *)
                       | None => (match put_all v zs la with Some r => Ok (VL r) | None => Err end)
                       end
@@ -1305,7 +1307,8 @@ Definition m_amend (a b : val) : res :=
               end
           end
       end
-  | (VL _ | VS _), _ => (match b with VS (_ :: _ :: _) => Unmod | VS _ => Ok a | _ => Err end)
+  | (VL _ | VS _), _ => (match b with VS (_ :: _ :: _) => Unmod | VS _ | VC _ | VY _ => Unmod | _ => Err end)
+  | (VC _ | VY _), _ => Unmod       (* KGChar and KGSym are str *)
   | _, _ => Err
   end.
 
@@ -1336,9 +1339,8 @@ Definition m_amend_in_depth (a b : val) : res :=
       | Some zs =>
           if negb (List.length zs =? npdepth a)%nat then Unmod else
           match v with
-          | VI _ | VR _ =>
-              (match cast_into (has_real a) v with Some v' => amend_path (S (List.length zs)) a zs v' | None => Unmod end)
-          | VC _ | VS _ | VY _ => amend_path (S (List.length zs)) a zs v
+          | VI z => amend_path (S (List.length zs)) a zs (if has_real a then VR (rofZ z) else v)
+          | VR _ | VC _ | VS _ | VY _ => amend_path (S (List.length zs)) a zs v      (* stored as it is (fix: commit) *)
           | _ => Unmod
           end
       | None => Unmod
